@@ -46,6 +46,13 @@ CHECKS = {
             'are checked on the implementation alone.',
             'Children of deeper composites are pruned to the first K per (constructor, outcome class) - the pruned space is enumerated completely; STOP as a direct dict value is not generated.',
             '3/C03'),
+    'C10': ('model_checking',
+            'bounded exhaustive enumeration of combinator trees x targets (both constructor and operator spellings, auto and Match mode) and of all Check keyword combinations, against a boolean reference evaluator',
+            'Every And/Or/Not/Switch tree of depth <= 2 (thorough: 3) over 36 (+9 under Match) atoms, with and without defaults, built with constructors and with & | ~, '
+            'dict- and list-form Switch with 1-3 cases, on 9 targets covering every truth assignment: pass/reject, returned value, rejection class (MatchError), propagated Python '
+            'errors and the predicate call log (short-circuit) compared with the reference; all 1638 Check keyword combinations x sub-spec x target.',
+            'Deeper levels keep the first K terms per (constructor, outcome vector); Check with literal defaults only.',
+            '3/C10'),
 }
 
 NOT_YET = {}
